@@ -251,11 +251,9 @@ func checkC11Desc(r *run, c *VP8DescCase) (CaseInfo, error) {
 		return ci, nil
 	}
 	if len(in) == len(db) {
+		// a complete descriptor followed by no payload byte is not a descriptor cut short: it is decoded, and the
+		// bytes that follow it - none - are returned
 		ci.class("descriptor-only")
-		// a packet that ends right after the descriptor: acceptance is not specified
-		if err != nil {
-			return ci, nil
-		}
 	}
 	if err != nil {
 		return ci, failf("well-formed descriptor %s + %d payload bytes rejected: %v", hx(db), len(in)-len(db), err)
@@ -357,7 +355,7 @@ func genVP8DescCase(t *rapid.T) *VP8DescCase {
 	return c
 }
 
-const ruleC11 = "payloader: picture ids on/off (one case in six flips the public EnablePictureID field between calls: the id stays the running frame counter), running id advanced to {0,1,2,5,125-129,32765-32769} by fast-forwarding 1-byte frames, 1-4 frames of 1-3000 bytes (one case in 60: a frame of 65530-200000 bytes) biased to k*(MTU-descriptor)+-1, MTU > descriptor size biased to +1..+3 (one case in five changes the MTU between frames); every packet is decoded by VP8Packet (a fresh one per packet, or one for the whole stream) and by an independent RFC 7741 parser: payload concatenation = frame, S/IsPartitionHead first only, PID 0, <= MTU, id present in every packet (7-bit form < 128, 15-bit from 128), +1 per frame mod 2^15. descriptor: all X/I/L/T/K/M combinations with arbitrary field values and reserved bits from the reference builder, payload 0-40 bytes (one case in a hundred followed by 64 KiB more), truncations at every prefix 0-7; VP8Packet (receiver preloaded with other values) must read exactly the reference parse and reject cut descriptors (one case in eight runs in zero-allocation mode, where only acceptance and the returned bytes are checked); thorough adds all 2^16 first-two-octet combinations. Non-trivial = frame split into >=2 packets with ids on, id in {0,127,128,32767}, descriptor with >=2 optional fields or a truncation; distinct = FNV-64 of the JSON case"
+const ruleC11 = "payloader: picture ids on/off (one case in six flips the public EnablePictureID field between calls: the id stays the running frame counter), running id advanced to {0,1,2,5,125-129,32765-32769} by fast-forwarding 1-byte frames, 1-4 frames of 1-3000 bytes (one case in 60: a frame of 65530-200000 bytes) biased to k*(MTU-descriptor)+-1, MTU > descriptor size biased to +1..+3 (one case in five changes the MTU between frames); every packet is decoded by VP8Packet (a fresh one per packet, or one for the whole stream) and by an independent RFC 7741 parser: payload concatenation = frame, S/IsPartitionHead first only, PID 0, <= MTU, id present in every packet (7-bit form < 128, 15-bit from 128), +1 per frame mod 2^15. descriptor: all X/I/L/T/K/M combinations with arbitrary field values and reserved bits from the reference builder, payload 0-40 bytes (one case in a hundred followed by 64 KiB more), truncations at every prefix 0-7; VP8Packet (receiver preloaded with other values) must read exactly the reference parse (also when no payload byte follows the descriptor) and reject cut descriptors (one case in eight runs in zero-allocation mode, where only acceptance and the returned bytes are checked); thorough adds all 2^16 first-two-octet combinations. Non-trivial = frame split into >=2 packets with ids on, id in {0,127,128,32767}, descriptor with >=2 optional fields or a truncation; distinct = FNV-64 of the JSON case"
 
 func TestC11(t *testing.T) {
 	r := begin(t, "C11", "exploration", ruleC11)
